@@ -225,6 +225,31 @@ def stepLine (st : St) (line : String) : St × String :=
       let ix := (vgs.flatMap st.G.viewgramBins).map st.idx
       ({ st with dats := st.dats.insert out t, relR := {} }, t.fmtAt ix)
     | _, _ => (st, "bad-name")
+  | "rfwd" :: img :: acc :: elems =>
+    -- ProjMatrixElemsForOneBin::forward_project called directly on a bin that comes in with the value `acc`
+    match st.imgs.get? img with
+    | some x =>
+      let es := elems.filterMap parseRowElem
+      if es.length ≠ elems.length then (st, "bad-row")
+      else
+        let a : Rat := ((I acc : Int) : Rat)
+        let v := fwdRow st.ig es x a
+        let m := fwdRow st.ig (es.map fun e => (e.1, qabs e.2)) (x.map qabs) (qabs a)
+        let c := fwdRow st.ig (es.map fun e => (e.1, (1 : Rat))) (ones x.size) 0
+        (st, s!"{fmtQ v}|{fmtQ m}|{fmtQ c}")
+    | none => (st, "bad-name")
+  | "rbck" :: img :: yv :: elems =>
+    match st.imgs.get? img with
+    | some x =>
+      let es := elems.filterMap parseRowElem
+      if es.length ≠ elems.length then (st, "bad-row")
+      else
+        let y : Rat := ((I yv : Int) : Rat)
+        let t : Tri := ⟨bckRow st.ig es y x,
+                        bckRow st.ig (es.map fun e => (e.1, qabs e.2)) (qabs y) (x.map qabs),
+                        bckRow st.ig (es.map fun e => (e.1, (1 : Rat))) (if y = 0 then 0 else 1) (x.map fun _ => 0)⟩
+        (st, t.fmt)
+    | none => (st, "bad-name")
   | ["bsetup", img] =>
     match st.imgs.get? img with
     | some x => ({ st with bp := some (BackProj.setUp x, BackProj.setUp (x.map qabs), BackProj.setUp (x.map fun _ => 0)) }, "ok")
